@@ -169,7 +169,10 @@ func (c *connection) send(conn net.Conn, connDone chan bool) {
 		default:
 			verifClientYield("send.inner", c.client, conn)
 			select {
+			case m = <-c.client.sendFailQueue: // handed back by a sender whose connection was lost
 			case m = <-c.client.sendQueue: // Fetch jobs
+			case <-connDone: // connection closed
+				return
 			case <-t.C:
 				if c.isClosed {
 					return
@@ -181,6 +184,12 @@ func (c *connection) send(conn net.Conn, connDone chan bool) {
 				}
 				continue
 			}
+		}
+		if c.lost(conn) {
+			// conn was closed while this goroutine was waiting (it only learns that at its next
+			// poll): do not write to it, leave the request to the sender of the current connection
+			c.client.sendFailQueue <- m
+			return
 		}
 		verifClientYield("send.got", c.client, conn)
 		atomic.AddInt32(&c.invokeNum, 1)
@@ -269,10 +278,21 @@ func (c *connection) recv(conn net.Conn, connDone chan bool) {
 	}
 }
 
+// lost reports whether conn is no longer the client's live connection.
+func (c *connection) lost(conn net.Conn) bool {
+	c.connLock.Lock()
+	defer c.connLock.Unlock()
+	return c.isClosed || c.conn != conn
+}
+
 func (c *connection) close(conn net.Conn) {
 	c.connLock.Lock()
 	defer c.connLock.Unlock()
-	c.isClosed = true
+	// The sender and the receiver of a connection both end up here, possibly after ReConnect has
+	// already replaced it: only the loss of the current connection marks the client closed.
+	if conn == c.conn {
+		c.isClosed = true
+	}
 	if conn != nil {
 		_ = conn.Close()
 	}
